@@ -209,6 +209,116 @@ class Chordal(Harness):
 
 
 # ---------------------------------------------------------------------------
+class ChordalQR(Harness):
+    """calc_chordal_distance (QR route) agrees with calc_chordal_distance_2
+    (projection route) and vanishes for equal subspaces, one-dimensional
+    subspaces (the case beamforming code uses)."""
+    name = 'chordal-qr'
+    modules = (PROJ, METR)
+    functions = (METR + ':calc_chordal_distance',
+                 METR + ':calc_chordal_distance_2',
+                 PROJ + ':calcProjectionMatrix')
+    bounds = 'A, B complex 2x1, 3x1 (quick); 4x1 (thorough); B = A t, t != 0'
+    stubs = ('np.linalg.qr -> fresh Q (orthonormal columns) and upper '
+             'triangular R with Q R = A', 'np.linalg.inv contract')
+    assumptions = ('full column rank',
+                   'vanishing of the QR route for equal subspaces is the '
+                   'composition of routines-agree (all A, B) with the '
+                   'chordal2 result d2(A, A t) = 0 (logical instantiation, '
+                   'not a solver query); it is also run concretely')
+    div_mode = 'assume'
+    outside = ('subspace dimension >= 2 for the QR route (concrete runs only)',
+               'the principal-angle route (SVD + arccos)')
+
+    def configs(self, tier):
+        s = [(2, 1), (3, 1)]
+        if tier != 'quick':
+            s += [(4, 1)]
+        return [dict(m=m, n=n) for m, n in s]
+
+    def sym(self, ctx, cfg):
+        me = repo_module(METR)
+        pj = repo_module(PROJ)
+        m, n = cfg['m'], cfg['n']
+        A = sym_array(ctx, 'A', (m, n), kind='complex')
+        B = sym_array(ctx, 'B', (m, n), kind='complex')
+        d = me.calc_chordal_distance(A, B)
+        d2 = me.calc_chordal_distance_2(A, B)
+        # lemmas: the projector built from the Q factor is the projection
+        for nm, X in (('A', A), ('B', B)):
+            Q = C.as_cmat(C.qr(X)[0])
+            P = pj.calcProjectionMatrix(X)
+            prove_zero(ctx, 'QQh=projection:' + nm,
+                       C.mm(Q, C.herm(Q)) - C.as_cmat(P), rounds=3,
+                       fallback_exact=False, lemma=True)
+        prove_zero(ctx, 'routines-agree', d * d - d2 * d2, rounds=3,
+                   fallback_exact=False)
+        ds = me.calc_chordal_distance(B, A)
+        prove_zero(ctx, 'symmetric', d * d - ds * ds, fallback_exact=False)
+        # equal subspaces: d(A, A t) = d2(A, A t) is an instance of
+        # routines-agree (proved for every full-rank A, B) and d2(A, A t) = 0
+        # is proved by the chordal2 harness; a direct proof with B = A t was
+        # tried and is not decided by the linearised prover (degree)
+
+    def _check(self, inp):
+        me = repo_module(METR)
+        A, B, t = inp
+        bad = []
+        d1, d2 = me.calc_chordal_distance(A, B), \
+            me.calc_chordal_distance_2(A, B)
+        if abs(d1 - d2) > 1e-8:
+            bad.append('routines-agree')
+        if abs(d1 - me.calc_chordal_distance(B, A)) > 1e-8:
+            bad.append('symmetric')
+        if me.calc_chordal_distance(A, A * t) > 1e-6:
+            bad.append('same-subspace')
+        # all three routes, any subspace dimension (sampled)
+        pa = me.calc_principal_angles(A, B)
+        d3 = me.calc_chordal_distance_from_principal_angles(pa)
+        if abs(d3 - d2) > 1e-6:
+            bad.append('principal-angle-route-agrees')
+        return bad
+
+    def replay(self, cfg, name, model):
+        m, n = cfg['m'], cfg['n']
+        tt = model.get('t_re', 1), model.get('t_im', 0)
+        try:
+            t = complex(float(tt[0]), float(tt[1]))
+        except Exception:
+            t = 1 + 0.5j
+        first = (carray_from_model(model, 'A', (m, n)),
+                 carray_from_model(model, 'B', (m, n)), t or (1 + 0.5j))
+        if np.linalg.matrix_rank(first[0]) < n or np.linalg.matrix_rank(
+                first[1]) < n:
+            first = None
+        bad, inp = search_witness(
+            self._check, first,
+            gen=lambda r: (crandn(r, m, n), crandn(r, m, n),
+                           complex(r.gauss(0, 1) + 2,
+                                   r.gauss(0, 1))))
+        return dict(reproduced=bool(bad),
+                    key='C20/chordal-qr/' + '+'.join(bad),
+                    detail=str(inp)[:300])
+
+    def concrete(self, cfg, rng):
+        m = cfg['m']
+        k = 0
+        for n in (1, 2):
+            if n >= m:
+                continue
+            for _ in range(4):
+                assert not self._check(
+                    (crandn(rng, m, n), crandn(rng, m, n),
+                     complex(rng.gauss(0, 1) + 2,
+                             rng.gauss(0, 1))))
+                k += 1
+        # real inputs as well
+        assert not self._check((crandn(rng, m, 1).real + 0j,
+                                crandn(rng, m, 1).real + 0j, 1.5 + 0j))
+        return k + 1
+
+
+# ---------------------------------------------------------------------------
 class UpdateInv(Harness):
     """update_inv_sum_diag(inv(A), d) is the inverse of A + diag(d)."""
     name = 'update-inv'
@@ -632,7 +742,7 @@ class Conversions(Harness):
         return 20
 
 
-HARNESSES = [Projection(), Chordal(), UpdateInv(), Selectors(), Whitening(),
+HARNESSES = [ChordalQR(), Projection(), Chordal(), UpdateInv(), Selectors(), Whitening(),
              Gmd(), Conversions()]
 
 MANIFEST = dict(
